@@ -125,38 +125,90 @@ type SpecFamilies struct {
 	Rest        string   `json:"rest"`
 }
 
+// js renders canonically: a nil map/slice and an empty one are the same thing to every reader
+// of an OCI spec, so "null" is rendered as the empty collection of the caller's choosing.
 func js(v interface{}) string {
 	b, _ := json.Marshal(v)
 	return string(b)
 }
 
+// prune drops null / {} / [] members recursively (nil and empty sections are the same thing)
+func prune(v interface{}) interface{} {
+	switch t := v.(type) {
+	case map[string]interface{}:
+		for k, x := range t {
+			x = prune(x)
+			if x == nil {
+				delete(t, k)
+			} else {
+				t[k] = x
+			}
+		}
+		if len(t) == 0 {
+			return nil
+		}
+		return t
+	case []interface{}:
+		if len(t) == 0 {
+			return nil
+		}
+		for i := range t {
+			t[i] = prune(t[i])
+		}
+		return t
+	}
+	return v
+}
+
+func jsPruned(v interface{}) string {
+	b, _ := json.Marshal(v)
+	var x interface{}
+	if err := json.Unmarshal(b, &x); err != nil {
+		return string(b)
+	}
+	x = prune(x)
+	if x == nil {
+		return "{}"
+	}
+	b, _ = json.Marshal(x)
+	return string(b)
+}
+
+func jsOr(v interface{}, empty string) string {
+	s := js(v)
+	if s == "null" {
+		return empty
+	}
+	return s
+}
+
 func Families(s *rspec.Spec) SpecFamilies {
 	f := SpecFamilies{DevRules: []string{}}
-	f.Annotations = js(s.Annotations) // encoding/json sorts map keys
+	f.Annotations = jsOr(s.Annotations, "{}") // encoding/json sorts map keys
 	if s.Process != nil {
-		f.Args = js(s.Process.Args)
-		f.EnvOrdered = js(s.Process.Env)
+		f.Args = jsOr(s.Process.Args, "[]")
+		f.EnvOrdered = jsOr(s.Process.Env, "[]")
 		e := append([]string{}, s.Process.Env...)
 		sort.Strings(e)
-		f.EnvSorted = js(e)
-		f.Rlimits = js(s.Process.Rlimits)
+		f.EnvSorted = jsOr(e, "[]")
+		f.Rlimits = jsOr(s.Process.Rlimits, "[]")
 		f.OomScoreAdj = js(s.Process.OOMScoreAdj)
 	}
-	f.Mounts = js(s.Mounts)
-	f.Hooks = js(s.Hooks)
+	f.Mounts = jsOr(s.Mounts, "[]")
+	f.Hooks = jsPruned(s.Hooks)
 	if s.Linux != nil {
-		f.Devices = js(s.Linux.Devices)
+		f.Devices = jsOr(s.Linux.Devices, "[]")
 		f.CgroupsPath = s.Linux.CgroupsPath
-		f.Rdt = js(s.Linux.IntelRdt)
+		f.Rdt = jsPruned(s.Linux.IntelRdt)
 		if r := s.Linux.Resources; r != nil {
 			for _, d := range r.Devices {
 				f.DevRules = append(f.DevRules, js(d))
 			}
-			f.BlockIO = js(r.BlockIO)
+			f.BlockIO = jsPruned(r.BlockIO)
 			c := *r
 			c.Devices = nil
 			c.BlockIO = nil
-			f.Resources = js(c)
+			f.Resources = jsPruned(c)
 		}
 		f.Rest = s.Linux.RootfsPropagation
 	}
